@@ -248,7 +248,16 @@ func report(P *Program, v *Verifier, plan *Plan, prop, tier string, seed int, ob
 	exit := 0
 	violations := 0
 	var knownHit []string
+	undecided := 0
 	for _, ob := range failed {
+		if ob.Failure != "" {
+			// the verifier could not model the code: undecided, never an alarm
+			if ob.Kind == "subset" {
+				fmt.Printf("UNDECIDED: property=%s %s: %s\n", prop, ob.Func, ob.Failure)
+			}
+			undecided++
+			continue
+		}
 		if kf := known.match(ob.Name); kf != nil {
 			fmt.Printf("KNOWN-FINDING: property=%s %s %s\n", prop, ob.Name, kf.What)
 			knownHit = append(knownHit, ob.Name)
@@ -319,8 +328,11 @@ func report(P *Program, v *Verifier, plan *Plan, prop, tier string, seed int, ob
 		data, _ := json.MarshalIndent(ev, "", " ")
 		os.WriteFile(filepath.Join(verifDir, "evidence", prop+".json"), data, 0o644)
 	}
-	fmt.Printf("%s: %d obligations, %d discharged, %d failed (%d known), %.1fs (load %.1fs, generate %.1fs)\n",
-		prop, len(obs), discharged, len(failed), len(knownHit), wall, loadT.Seconds(), genT.Seconds())
+	fmt.Printf("%s: %d obligations, %d discharged, %d failed (%d known, %d undecided), %.1fs (load %.1fs, generate %.1fs)\n",
+		prop, len(obs), discharged, len(failed), len(knownHit), undecided, wall, loadT.Seconds(), genT.Seconds())
+	if exit == 0 && undecided > 0 {
+		return 2
+	}
 	return exit
 }
 
